@@ -31,6 +31,15 @@ PROPS = {
         'trusted': CRDT_TRUSTED,
         'assumptions': ['P-counter rejection of negative increments happens at write time and is not modelled'],
     },
+    'C03': {
+        'level': 'proof',
+        'coq': CRDT_COQ + ['Crdt/Versioned.v', 'Props/C03.v'],
+        'props_files': ['Props/C03.v'],
+        'engines': [{'name': 'crdt', 'kinds': ['versioned-.*', 'subscription-.*', 'query-error', 'harness-.*']}],
+        'corr_relation': 'CorrCRDT.check_case, SVersioned steps (versioned u c = row returned by <Collection>(cid: c, docID: d))',
+        'trusted': CRDT_TRUSTED + ['the time-travel read is modelled as a delivery of the commit to an empty replica (VersionedFetcher.seekTo/merge after the F4 repair)'],
+        'assumptions': ['subscription results are compared with the ordinary query recorded right after each commit (implementation oracle); the model covers the selection state, not the subscription plumbing (C20)'],
+    },
     'C04': {
         'level': 'proof',
         'coq': CRDT_COQ + ['Props/C04.v'],
@@ -39,6 +48,16 @@ PROPS = {
         'corr_relation': 'CorrCRDT.check_case (predicted head set and local-write parents/height = observed)',
         'trusted': CRDT_TRUSTED,
         'assumptions': ['hash / height / closure of every block and genesis determinism are evaluated on the implementation (SHA-256 recomputed by the harness), not proved'],
+    },
+    'C05': {
+        'level': 'proof',
+        'coq': ['Kv/Txn.v', 'Corr/CorrC05.v', 'Props/C05.v'],
+        'props_files': ['Props/C05.v'],
+        'engines': [{'name': 'fault', 'timeout': 1500, 'timeout_thorough': 7200}],
+        'corr_relation': 'CorrC05.check_case (the logged store operations of each real API call are a run of the model transaction: reads = snapshot + own writes, committed writes = observed final store)',
+        'trusted': ['faults are injected at the corekv boundary by the kvtrace wrapper; Badger commits atomically (below the model)',
+                    'the hypothesis "the program propagates storage errors" is what the code must supply; it is established per API call by enumerating the fault points on the real code (fault_enumeration), not by proof'],
+        'assumptions': ['explicit transactions: commit and discard are no-ops for the call, a failed call leaves its partial writes in the caller\'s transaction (finding F17); the theorem is about implicit transactions'],
     },
     'C17': {
         'level': 'proof',
@@ -53,6 +72,9 @@ PROPS = {
 }
 
 MANIFEST_TEXT = {
+    'C05': {'text': 'All-or-nothing for every error-propagating program, store and fault schedule is a Coq theorem over a transactional program model; that the real API calls are such programs is established by exhaustive fault enumeration at the corekv boundary: every store operation of every call kind is failed in turn on real nodes, with the raw store diff, logical dump and published events as oracle; the fault-free operation logs are replayed on the model transaction',
+            'note': 'proof about the transaction discipline + fault enumeration on the real code for the hypothesis; Badger-internal faults and torn writes are below the injection point',
+            'technique': 'Coq proof + exhaustive fault-point enumeration + trace replay'},
     'C17': {'text': 'Order preservation and round-trip of the integer and float64 key codecs are Coq theorems about Gallina functions regenerated from internal/encoding on every run; decoders, strings, time, composite keys are modelled by hand and tied by a byte-for-byte correspondence run plus the direct oracle on the Go functions',
             'note': 'trusted: Coq kernel, vm_compute, the gosyn translator, IEEE semantics of Go floats; JSON keys and float32 decode are covered by the implementation oracle only',
             'technique': 'Coq proof over translated code + differential correspondence'},
@@ -62,6 +84,9 @@ MANIFEST_TEXT = {
     'C02': {'text': 'Counter = sum of merged increments, register = lexicographic maximum of merged writes, delete sticky, ancestors visible: Coq theorems for every reachable replica state; checked on real nodes after every single delivery against a harness-side reference and against the model',
             'note': 'same model and trusted base as C01',
             'technique': 'Coq proof + step-wise correspondence with real nodes'},
+    'C03': {'text': 'The time-travel state at commit c is the replay of exactly c and its ancestors, each once (Coq theorem); corollaries: equals any replica that merged exactly those commits (the writer right after c on a linear history), equals the current state at a single head, counters read prefix sums. Every commit of every generated history is queried by cid on real nodes and compared with the model, with a harness-side reference, with the recorded past query results and with subscription results',
+            'note': 'same model and trusted base as C01; subscription plumbing is covered by the implementation oracle',
+            'technique': 'Coq proof + correspondence on time-travel queries of every commit'},
     'C04': {'text': 'Heads = maximal merged commits, merged set closed under ancestry, merge walk exact (each unmerged ancestor once, parents first): Coq theorems; content addressing, heights, closure and field-level heads are evaluated on the raw stores of real nodes after every step',
             'note': 'hash function abstract in the model; SHA-256 recomputed by the harness; field-level heads: implementation oracle only; F26 recorded',
             'technique': 'Coq proof + raw store inspection'},
